@@ -112,7 +112,9 @@ class CacheDriver:
         return e
 
     # -- actions ----------------------------------------------------------------------------
-    def new(self, m, d, flag):
+    def new(self, m, d, flag, by_size=False, ignored_degree=None):
+        """AngularGrid(degree=d) - or, with by_size, the same grid requested through its size, the degree
+        argument (default 50, or ``ignored_degree``) being documented as ignored."""
         e = self._ev("New", m=m, d=int(d), flag=bool(flag), p="dirty", w="dirty", pa=False, wa=False, incache=False)
         try:
             with warnings.catch_warnings():
@@ -127,8 +129,17 @@ class CacheDriver:
                     self.objs.append((m, a, b))
                 else:
                     from grid.angular import AngularGrid
-                    g = AngularGrid(degree=int(d), method=m, cache=bool(flag))
-                    p, w = _shipped(m, int(g.degree), self.tabs)
+                    if by_size:
+                        size = dict(self.tabs[m]["deg"])[int(d)]
+                        if ignored_degree is None:
+                            g = AngularGrid(size=size, method=m, cache=bool(flag))
+                        else:
+                            g = AngularGrid(degree=int(ignored_degree), size=size, method=m, cache=bool(flag))
+                    else:
+                        g = AngularGrid(degree=int(d), method=m, cache=bool(flag))
+                    # the grid REQUESTED (a tabulated degree, or the size of one) - not whatever degree the
+                    # returned object reports
+                    p, w = _shipped(m, int(d), self.tabs)
                     e["p"], e["w"] = _okd(g.points, p), _okd(g.weights, w)
                     e["pa"], e["wa"] = self._aliases(g.points, m), self._aliases(g.weights, m)
                     e["incache"] = int(d) in _caches()[m]
@@ -216,6 +227,16 @@ class CacheDriver:
                     sph = ag.convert_cartesian_to_spherical()
                     from grid.utils import convert_cart_to_sph
                     e["p"] = _okd(sph[:n, 1:], convert_cart_to_sph(P)[:, 1:])
+                # ... and then the caller scribbles over every array this object hands out (centre, weights,
+                # index table, points): nothing of that may reach a LATER construction
+                for obj in [x for x in (locals().get("ag"), locals().get("ar"), locals().get("mg"), locals().get("a1")) if x is not None]:
+                    for name in ("center", "weights", "indices", "points", "atcoords", "atweights", "aim_weights"):
+                        try:
+                            arr = getattr(obj, name)
+                            if isinstance(arr, np.ndarray) and arr.flags.writeable:
+                                arr += 3
+                        except Exception:  # noqa: BLE001
+                            pass
         except Exception as ex:
             e["exc"] = type(ex).__name__
         e["clean"] = self._clean()
@@ -396,7 +417,17 @@ def run(tier: str) -> int:
                 if rng.random() < 0.15:
                     d.new("coulomb", rng.choice(elements), True)
                 else:
-                    d.new(m, rng.choice(small[m]), rng.random() < 0.6)
+                    r = rng.random()
+                    dd = rng.choice(small[m])
+                    built = [o for o in d.objs if o[0] == m and len(o) == 4]
+                    if r < 0.08:
+                        d.new("maxdet", 50, True)          # the default value of the (ignored) degree argument is tabulated here
+                    elif r < 0.30:
+                        d.new(m, dd, rng.random() < 0.6, by_size=True)
+                    elif r < 0.45 and built:
+                        d.new(m, dd, rng.random() < 0.6, by_size=True, ignored_degree=int(rng.choice(built)[3].degree))
+                    else:
+                        d.new(m, dd, rng.random() < 0.6)
             elif x < 0.6:
                 if d.objs:
                     d.edit(rng.randint(1, len(d.objs)), rng.choice("pw"))
